@@ -841,11 +841,12 @@ class Index(MutableMapping):
 
         """
         _cache = self._cache
-        while True:
-            try:
-                return _cache[key]
-            except KeyError:
-                _cache.add(key, default, retry=True)
+        with _cache.transact(retry=True):
+            while True:
+                try:
+                    return _cache[key]
+                except KeyError:
+                    _cache.add(key, default, retry=True)
 
     def peekitem(self, last=True):
         """Peek at key and value item pair in index based on iteration order.
